@@ -147,13 +147,19 @@ func (fr *frame) call(c *ssa.Call) Val {
 	if v, ok := fr.writerCall(c, callee, args); ok {
 		return v
 	}
+	if v, ok := fr.sortCall(c, callee, args); ok {
+		return v
+	}
 	if v, ok := fr.predicateCall(c, callee, args); ok {
 		return v
 	}
 	if v, ok := fr.matcherCall(c, callee, args); ok {
 		return v
 	}
-	if !InModule(callee) || callee.Blocks == nil {
+	if moduleWrapper(callee) {
+		// a thunk or bound-method wrapper the compiler made for a method of the
+		// module: it only forwards, so it is evaluated like module code
+	} else if !InModule(callee) || callee.Blocks == nil {
 		if !readOnlyExternal(callee) {
 			for _, a := range args {
 				fr.havocFresh(a)
@@ -926,4 +932,76 @@ func regexpPattern(path string) (string, bool) {
 	}
 	s, err := strconv.Unquote(strings.TrimPrefix(path, "regexp#"))
 	return s, err == nil
+}
+
+// moduleWrapper: a synthetic forwarding function (method-expression thunk,
+// bound-method closure) around a method of the library.
+func moduleWrapper(fn *ssa.Function) bool {
+	if fn == nil || fn.Pkg != nil || fn.Synthetic == "" || len(fn.Blocks) == 0 {
+		return false
+	}
+	if !strings.HasSuffix(fn.Name(), "$thunk") && !strings.HasSuffix(fn.Name(), "$bound") {
+		return false
+	}
+	return strings.Contains(fn.String(), modPath)
+}
+
+// sortCall models sort.Slice / sort.SliceStable on a modelled slice of known,
+// small length whose comparator is a function of the module that evaluates to
+// a constant for every pair asked: the elements are put in order by insertion
+// (for a strict weak order every sorting algorithm gives the same sequence up
+// to ties, and ties make the model give up unless the sort is stable).
+func (fr *frame) sortCall(c *ssa.Call, fn *ssa.Function, args []Val) (Val, bool) {
+	if fn.Pkg == nil || fn.Pkg.Pkg.Path() != "sort" || (fn.Name() != "Slice" && fn.Name() != "SliceStable") || len(args) != 2 {
+		return Val{}, false
+	}
+	x, less := args[0], args[1]
+	if x.K != KIface || x.Inner == nil || x.Inner.K != KSlice || less.K != KFunc || less.Fn == nil || len(less.Fn.Blocks) == 0 {
+		return Val{}, false
+	}
+	sl := *x.Inner
+	st, isSlice := x.T.Underlying().(*types.Slice)
+	if !isSlice || sl.Len < 0 || sl.Len > 16 || !strings.Contains(sl.S, "#") {
+		return Val{}, false
+	}
+	giveUp := func() (Val, bool) {
+		fr.havoc(sl)
+		return Val{K: KTuple}, true
+	}
+	at := func(i int) Val { return Val{K: KPtr, S: fmt.Sprintf("%s[%d]", sl.S, sl.Off+i)} }
+	callLess := func(i, j int) (bool, bool) {
+		fr.in.pendingFree = less.Elems
+		collect := fr.in.collect
+		fr.in.collect = false
+		out := fr.in.run(less.Fn, []Val{int64Val(int64(i)), int64Val(int64(j))}, nil, nil, fr.share(), fr.ctx+"/"+c.Name()+"less")
+		fr.in.pendingFree = nil
+		fr.in.collect = collect
+		fr.in.curFr = fr
+		if !out.CanReturn || len(out.Ret) != 1 || out.Ret[0].K != KBool {
+			return false, false
+		}
+		return out.Ret[0].B, true
+	}
+	for i := 1; i < sl.Len; i++ {
+		for j := i; j > 0; j-- {
+			lt, ok := callLess(j, j-1)
+			if !ok {
+				return giveUp()
+			}
+			if !lt {
+				if fn.Name() == "Slice" {
+					// a tie leaves the order to the algorithm
+					gt, ok := callLess(j-1, j)
+					if !ok || !gt {
+						return giveUp()
+					}
+				}
+				break
+			}
+			a, b := fr.load(at(j).S, st.Elem()), fr.load(at(j-1).S, st.Elem())
+			fr.store(at(j), b, st.Elem())
+			fr.store(at(j-1), a, st.Elem())
+		}
+	}
+	return Val{K: KTuple}, true
 }
